@@ -230,3 +230,29 @@ prop("C15", "c15",
      level="Randomised generated search against the record of an echo upstream behind the assembled proxy service; bounded exploration.",
      note="Trusted: the echo upstream records the request line as received (http.Request.RequestURI).",
      technique="property-based testing: reference computation of the forwarded request, observed at an echo upstream")
+
+prop("C10", "c10",
+     "Per caching mechanism a lifetime relative to now (absent, far past, just past, inside the safety margin, shortly after "
+     "it, far) and a configured TTL (unset, 0, shorter, longer; prototype and rule-level override) are generated and two "
+     "identical requests are executed against a recording cache with Redis semantics (and, for HTTP responses, also "
+     "heimdall's real in-memory cache): oauth2_introspection (exp, validity leeway), generic authenticator (session "
+     "not_after), jwt authenticator key cache (certificate NotAfter of the JWK minted per case), jwt finalizer (ttl), "
+     "oauth2_client_credentials finalizer (expires_in), remote authorizer and generic contextualizer (configured TTL only), HTTP cache round tripper on a remote endpoint (every combination of "
+     "max-age, s-maxage, Expires, Date, Age, no-store, no-cache, private, default_ttl). Oracle: only the bounds of the "
+     "statement: every cache.Set has ttl > 0; now + ttl <= expiry (+ validity leeway for authentication results) +- 2 s; ttl "
+     "<= configured TTL; a configured TTL of 0 produces no Set and both requests reach the remote; a response whose RFC 7234 "
+     "freshness (independent calculator) is zero/negative or which is not storable is fetched again. Non-trivial: lifetime "
+     "within 40 s of now or a configured TTL; distinct by (mechanism, TTL option, lifetime).",
+     [dict(run="^TestIntrospectionResultCaching$", quick=300, thorough=3000, shards_thorough=3),
+      dict(run="^TestGenericAuthenticatorCaching$", quick=300, thorough=3000, shards_thorough=3),
+      dict(run="^TestVerificationKeyCaching$", quick=300, thorough=3000, shards_thorough=3),
+      dict(run="^TestJWTFinalizerCaching$", quick=100, thorough=500, shards_thorough=1),
+      dict(run="^TestClientCredentialsTokenCaching$", quick=300, thorough=3000, shards_thorough=3),
+      dict(run="^TestHTTPResponseCaching$", quick=400, thorough=4000, shards_thorough=3),
+      dict(run="^TestConfiguredTTLBoundsSubjectHandlerCaches$", quick=300, thorough=1000, shards_thorough=1)],
+     ["expiry is checked through the TTL handed to the cache, not by waiting", "internal safety margins of the mechanisms are not asserted (only the bounds of the statement)",
+      "no heuristic freshness is expected for responses without explicit expiration information"],
+     level="Randomised generated search over lifetimes x TTL options per caching mechanism, observed at a recording cache and "
+           "at the remote call log; bounded exploration.",
+     note="Trusted: the recording cache (Redis semantics) and the independent RFC 7234 freshness calculator of the harness.",
+     technique="property-based testing: TTL bounds at a recording cache + independent freshness calculator")
